@@ -55,6 +55,28 @@ def make_walkers():
             self.cycles += 1
             assert any(id(p) == id(node) for p in path), 'on_cycle node not on path'
 
+    class WalkOne(ForestVisitor):
+        """a visitor whose *_in hooks return ONE node instead of a list / iterator ("Returning a node(s) will schedule
+        them to be visited"): it follows the first child only"""
+        def __init__(self):
+            super().__init__(False)
+            self.cycles = 0
+            self.entered = 0
+
+        def visit_symbol_node_in(self, node):
+            self.entered += 1
+            for c in node.children:
+                return c
+
+        def visit_packed_node_in(self, node):
+            self.entered += 1
+            for c in node.children:
+                return c
+
+        def on_cycle(self, node, path):
+            self.cycles += 1
+    make_walkers.WalkOne = WalkOne
+
     class Count(ForestTransformer):
         """number of derivations: sum over packed alternatives, product over children"""
         def __init__(self):
@@ -150,12 +172,14 @@ def run_case(ctx, G, text, l, rgL, cyclic, lexer, w, family, walkers):
     w1, w2 = Walk(False), Walk(True)
     walk('visit', lambda: w1.visit(root))
     walk('visit-single', lambda: w2.visit(root))
+    w3 = make_walkers.WalkOne()
+    walk('visit-returning-one-node', lambda: w3.visit(root))
     cnt = Count()
     ocnt = walk('count-transform', lambda: cnt.transform(root))
     walk('identity-transform', lambda: Ident().transform(root))
     t_all = walk('tft-all', lambda: TreeForestTransformer(resolve_ambiguity=False).transform(root))
     t_one = walk('tft-resolve', lambda: TreeForestTransformer(resolve_ambiguity=True).transform(root))
-    cycles = w1.cycles + w2.cycles + cnt.cycles
+    cycles = w1.cycles + w2.cycles + cnt.cycles + w3.cycles
     if cycles:
         feats.append('on_cycle-reported')
     if cyclic:
